@@ -303,3 +303,102 @@ Proof.
     + exfalso. clear - S T RL RT RA HB Hq. lia.
     + apply mod_eq_m1. { clear - S T RL RT RA HB. lia. } clear - S T. lia.
 Qed.
+
+(* fq_opp / fr_opp, as translated: the borrow chain of 0 - a and the masked add-back: (- a) mod m, in particular opp 0 = 0 (canonical). *)
+Lemma fq_opp_spec b : limbs_ok 8 b -> ev b < q ->
+  limbs_ok 8 (fq_opp b) /\ ev (fq_opp b) = (- ev b) mod q.
+Proof.
+  intros Hb.
+  destruct (limbs_ok_8 b Hb) as (b0&b1&b2&b3&b4&b5&b6&b7&->&?&?&?&?&?&?&?&?). clear Hb.
+  intros HB. cbv beta iota delta [ev fold_right] in HB.
+  match goal with |- limbs_ok 8 ?oo /\ ev ?oo = ?rr => pose (Q := fun o => limbs_ok 8 o /\ ev o = rr); change (Q oo) end.
+  cbv beta iota delta [fq_opp nth]. eval_closed.
+  do 8 step2 fq_sl. eval_closed. step1 fq_cl.
+  repeat match goal with H : _ /\ _ |- _ => destruct H end.
+  assert (S : v + 2^32*v0 + 2^64*v1 + 2^96*v2 + 2^128*v3 + 2^160*v4 + 2^192*v5 + 2^224*v6 - 2^256*k6 =
+    - (b0 + 2^32*(b1 + 2^32*(b2 + 2^32*(b3 + 2^32*(b4 + 2^32*(b5 + 2^32*(b6 + 2^32*(b7 + 2^32*0))))))))) by (clear HB; lia).
+  assert (K6 : 0 <= k6 <= 1) by (split; assumption).
+  split_bit k6; match goal with H : r = _ |- _ => cbn [Z.eqb] in H end; subst r; eval_closed.
+  all: do 8 step2 fq_al.
+  all: subst Q; cbv beta iota delta [ev fold_right limbs_ok length].
+  all: repeat match goal with H : _ /\ _ |- _ => destruct H end.
+  - assert (T : v7 + 2^32*v8 + 2^64*v9 + 2^96*v10 + 2^128*v11 + 2^160*v12 + 2^192*v13 + 2^224*v14 + 2^256*k13 = v + 2^32*v0 + 2^64*v1 + 2^96*v2 + 2^128*v3 + 2^160*v4 + 2^192*v5 + 2^224*v6 + 0) by (clear HB S; unfold q; lia).
+    assert (RL : 0 <= v + 2^32*v0 + 2^64*v1 + 2^96*v2 + 2^128*v3 + 2^160*v4 + 2^192*v5 + 2^224*v6 < 2^256) by (clear HB S T; lia).
+    assert (RT : 0 <= v7 + 2^32*v8 + 2^64*v9 + 2^96*v10 + 2^128*v11 + 2^160*v12 + 2^192*v13 + 2^224*v14 < 2^256) by (clear HB S T RL; lia).
+    assert (RB : 0 <= b0 + 2^32*(b1 + 2^32*(b2 + 2^32*(b3 + 2^32*(b4 + 2^32*(b5 + 2^32*(b6 + 2^32*(b7 + 2^32*0)))))))) by (clear HB S T RL RT; lia).
+    split. { split. reflexivity. repeat constructor; lia. }
+    replace (v7 + 2^32*(v8 + 2^32*(v9 + 2^32*(v10 + 2^32*(v11 + 2^32*(v12 + 2^32*(v13 + 2^32*(v14 + 2^32*0))))))))
+      with (v7 + 2^32*v8 + 2^64*v9 + 2^96*v10 + 2^128*v11 + 2^160*v12 + 2^192*v13 + 2^224*v14) by ring.
+    set (B := b0 + 2^32*(b1 + 2^32*(b2 + 2^32*(b3 + 2^32*(b4 + 2^32*(b5 + 2^32*(b6 + 2^32*(b7 + 2^32*0)))))))) in *. set (L := v + 2^32*v0 + 2^64*v1 + 2^96*v2 + 2^128*v3 + 2^160*v4 + 2^192*v5 + 2^224*v6) in *. set (TL := v7 + 2^32*v8 + 2^64*v9 + 2^96*v10 + 2^128*v11 + 2^160*v12 + 2^192*v13 + 2^224*v14) in *.
+    clearbody B L TL.
+    assert (Hq : 0 < q < 2^256) by (unfold q; lia).
+    assert (K14 : 0 <= k13 <= 1) by (split; assumption).
+    clear - S T RL RT RB HB Hq K14. unfold q in *.
+    split_bit k13.
+    + apply mod_eq_0. { clear - S T RB RT Hq. lia. } clear - S T. lia.
+    + exfalso. clear - S T RL RT. lia.
+  - assert (T : v7 + 2^32*v8 + 2^64*v9 + 2^96*v10 + 2^128*v11 + 2^160*v12 + 2^192*v13 + 2^224*v14 + 2^256*k13 = v + 2^32*v0 + 2^64*v1 + 2^96*v2 + 2^128*v3 + 2^160*v4 + 2^192*v5 + 2^224*v6 + q) by (clear HB S; unfold q; lia).
+    assert (RL : 0 <= v + 2^32*v0 + 2^64*v1 + 2^96*v2 + 2^128*v3 + 2^160*v4 + 2^192*v5 + 2^224*v6 < 2^256) by (clear HB S T; lia).
+    assert (RT : 0 <= v7 + 2^32*v8 + 2^64*v9 + 2^96*v10 + 2^128*v11 + 2^160*v12 + 2^192*v13 + 2^224*v14 < 2^256) by (clear HB S T RL; lia).
+    assert (RB : 0 <= b0 + 2^32*(b1 + 2^32*(b2 + 2^32*(b3 + 2^32*(b4 + 2^32*(b5 + 2^32*(b6 + 2^32*(b7 + 2^32*0)))))))) by (clear HB S T RL RT; lia).
+    split. { split. reflexivity. repeat constructor; lia. }
+    replace (v7 + 2^32*(v8 + 2^32*(v9 + 2^32*(v10 + 2^32*(v11 + 2^32*(v12 + 2^32*(v13 + 2^32*(v14 + 2^32*0))))))))
+      with (v7 + 2^32*v8 + 2^64*v9 + 2^96*v10 + 2^128*v11 + 2^160*v12 + 2^192*v13 + 2^224*v14) by ring.
+    set (B := b0 + 2^32*(b1 + 2^32*(b2 + 2^32*(b3 + 2^32*(b4 + 2^32*(b5 + 2^32*(b6 + 2^32*(b7 + 2^32*0)))))))) in *. set (L := v + 2^32*v0 + 2^64*v1 + 2^96*v2 + 2^128*v3 + 2^160*v4 + 2^192*v5 + 2^224*v6) in *. set (TL := v7 + 2^32*v8 + 2^64*v9 + 2^96*v10 + 2^128*v11 + 2^160*v12 + 2^192*v13 + 2^224*v14) in *.
+    clearbody B L TL.
+    assert (Hq : 0 < q < 2^256) by (unfold q; lia).
+    assert (K14 : 0 <= k13 <= 1) by (split; assumption).
+    clear - S T RL RT RB HB Hq K14. unfold q in *.
+    split_bit k13.
+    + exfalso. clear - S T RL RT HB Hq. lia.
+    + apply mod_eq_m1. { clear - S T RL RT HB. lia. } clear - S T. lia.
+Qed.
+
+Lemma fr_opp_spec b : limbs_ok 8 b -> ev b < Certs.r ->
+  limbs_ok 8 (fr_opp b) /\ ev (fr_opp b) = (- ev b) mod Certs.r.
+Proof.
+  intros Hb.
+  destruct (limbs_ok_8 b Hb) as (b0&b1&b2&b3&b4&b5&b6&b7&->&?&?&?&?&?&?&?&?). clear Hb.
+  intros HB. cbv beta iota delta [ev fold_right] in HB.
+  match goal with |- limbs_ok 8 ?oo /\ ev ?oo = ?rr => pose (Q := fun o => limbs_ok 8 o /\ ev o = rr); change (Q oo) end.
+  cbv beta iota delta [fr_opp nth]. eval_closed.
+  do 8 step2 fr_sl. eval_closed. step1 fr_cl.
+  repeat match goal with H : _ /\ _ |- _ => destruct H end.
+  assert (S : v + 2^32*v0 + 2^64*v1 + 2^96*v2 + 2^128*v3 + 2^160*v4 + 2^192*v5 + 2^224*v6 - 2^256*k6 =
+    - (b0 + 2^32*(b1 + 2^32*(b2 + 2^32*(b3 + 2^32*(b4 + 2^32*(b5 + 2^32*(b6 + 2^32*(b7 + 2^32*0))))))))) by (clear HB; lia).
+  assert (K6 : 0 <= k6 <= 1) by (split; assumption).
+  split_bit k6; match goal with H : r = _ |- _ => cbn [Z.eqb] in H end; subst r; eval_closed.
+  all: do 8 step2 fr_al.
+  all: subst Q; cbv beta iota delta [ev fold_right limbs_ok length].
+  all: repeat match goal with H : _ /\ _ |- _ => destruct H end.
+  - assert (T : v7 + 2^32*v8 + 2^64*v9 + 2^96*v10 + 2^128*v11 + 2^160*v12 + 2^192*v13 + 2^224*v14 + 2^256*k13 = v + 2^32*v0 + 2^64*v1 + 2^96*v2 + 2^128*v3 + 2^160*v4 + 2^192*v5 + 2^224*v6 + 0) by (clear HB S; unfold Certs.r; lia).
+    assert (RL : 0 <= v + 2^32*v0 + 2^64*v1 + 2^96*v2 + 2^128*v3 + 2^160*v4 + 2^192*v5 + 2^224*v6 < 2^256) by (clear HB S T; lia).
+    assert (RT : 0 <= v7 + 2^32*v8 + 2^64*v9 + 2^96*v10 + 2^128*v11 + 2^160*v12 + 2^192*v13 + 2^224*v14 < 2^256) by (clear HB S T RL; lia).
+    assert (RB : 0 <= b0 + 2^32*(b1 + 2^32*(b2 + 2^32*(b3 + 2^32*(b4 + 2^32*(b5 + 2^32*(b6 + 2^32*(b7 + 2^32*0)))))))) by (clear HB S T RL RT; lia).
+    split. { split. reflexivity. repeat constructor; lia. }
+    replace (v7 + 2^32*(v8 + 2^32*(v9 + 2^32*(v10 + 2^32*(v11 + 2^32*(v12 + 2^32*(v13 + 2^32*(v14 + 2^32*0))))))))
+      with (v7 + 2^32*v8 + 2^64*v9 + 2^96*v10 + 2^128*v11 + 2^160*v12 + 2^192*v13 + 2^224*v14) by ring.
+    set (B := b0 + 2^32*(b1 + 2^32*(b2 + 2^32*(b3 + 2^32*(b4 + 2^32*(b5 + 2^32*(b6 + 2^32*(b7 + 2^32*0)))))))) in *. set (L := v + 2^32*v0 + 2^64*v1 + 2^96*v2 + 2^128*v3 + 2^160*v4 + 2^192*v5 + 2^224*v6) in *. set (TL := v7 + 2^32*v8 + 2^64*v9 + 2^96*v10 + 2^128*v11 + 2^160*v12 + 2^192*v13 + 2^224*v14) in *.
+    clearbody B L TL.
+    assert (Hq : 0 < Certs.r < 2^256) by (unfold Certs.r; lia).
+    assert (K14 : 0 <= k13 <= 1) by (split; assumption).
+    clear - S T RL RT RB HB Hq K14. unfold Certs.r in *.
+    split_bit k13.
+    + apply mod_eq_0. { clear - S T RB RT Hq. lia. } clear - S T. lia.
+    + exfalso. clear - S T RL RT. lia.
+  - assert (T : v7 + 2^32*v8 + 2^64*v9 + 2^96*v10 + 2^128*v11 + 2^160*v12 + 2^192*v13 + 2^224*v14 + 2^256*k13 = v + 2^32*v0 + 2^64*v1 + 2^96*v2 + 2^128*v3 + 2^160*v4 + 2^192*v5 + 2^224*v6 + Certs.r) by (clear HB S; unfold Certs.r; lia).
+    assert (RL : 0 <= v + 2^32*v0 + 2^64*v1 + 2^96*v2 + 2^128*v3 + 2^160*v4 + 2^192*v5 + 2^224*v6 < 2^256) by (clear HB S T; lia).
+    assert (RT : 0 <= v7 + 2^32*v8 + 2^64*v9 + 2^96*v10 + 2^128*v11 + 2^160*v12 + 2^192*v13 + 2^224*v14 < 2^256) by (clear HB S T RL; lia).
+    assert (RB : 0 <= b0 + 2^32*(b1 + 2^32*(b2 + 2^32*(b3 + 2^32*(b4 + 2^32*(b5 + 2^32*(b6 + 2^32*(b7 + 2^32*0)))))))) by (clear HB S T RL RT; lia).
+    split. { split. reflexivity. repeat constructor; lia. }
+    replace (v7 + 2^32*(v8 + 2^32*(v9 + 2^32*(v10 + 2^32*(v11 + 2^32*(v12 + 2^32*(v13 + 2^32*(v14 + 2^32*0))))))))
+      with (v7 + 2^32*v8 + 2^64*v9 + 2^96*v10 + 2^128*v11 + 2^160*v12 + 2^192*v13 + 2^224*v14) by ring.
+    set (B := b0 + 2^32*(b1 + 2^32*(b2 + 2^32*(b3 + 2^32*(b4 + 2^32*(b5 + 2^32*(b6 + 2^32*(b7 + 2^32*0)))))))) in *. set (L := v + 2^32*v0 + 2^64*v1 + 2^96*v2 + 2^128*v3 + 2^160*v4 + 2^192*v5 + 2^224*v6) in *. set (TL := v7 + 2^32*v8 + 2^64*v9 + 2^96*v10 + 2^128*v11 + 2^160*v12 + 2^192*v13 + 2^224*v14) in *.
+    clearbody B L TL.
+    assert (Hq : 0 < Certs.r < 2^256) by (unfold Certs.r; lia).
+    assert (K14 : 0 <= k13 <= 1) by (split; assumption).
+    clear - S T RL RT RB HB Hq K14. unfold Certs.r in *.
+    split_bit k13.
+    + exfalso. clear - S T RL RT HB Hq. lia.
+    + apply mod_eq_m1. { clear - S T RL RT HB. lia. } clear - S T. lia.
+Qed.
